@@ -245,6 +245,64 @@ func requireHrefProp(resp *davx.Response, ns, local, want string, must bool, out
 
 // judge applies appendix C to one request. checked=false: don't-care cell.
 func (r *rig) judge(p string, o *observed) (out []anomaly, checked bool) {
+	out, checked = r.judgeTable(p, o)
+	m := r.cs.Method
+	if m == "MKCOL" || m == "COPY" || m == "MOVE" {
+		// MKCOL is judged by the table; COPY/MOVE of a collection would
+		// legitimately create at the Destination: left open.
+		return out, checked
+	}
+	lvl := r.cs.Level
+	if lvl > 5 {
+		lvl = 5
+	}
+	// Whatever the method token and whatever the status: the backend may be
+	// asked to create a collection only by a request at collection depth, and
+	// then for the request path itself.
+	for _, c := range o.calls {
+		if c.Op != "CreateColl" {
+			continue
+		}
+		if lvl != 3 {
+			out = append(out, anomaly{"create-outside-collection-level", fmt.Sprintf("%s made the backend create a collection at %q, which is not at collection depth (status %d)", m, c.Path, o.status)})
+		} else if c.Path != p {
+			out = append(out, anomaly{"path-altered:CreateColl", fmt.Sprintf("%s made the backend create %q, request path is %q", m, c.Path, p)})
+		}
+	}
+	if tableMethods[m] {
+		return out, checked
+	}
+	// A method token outside the table (unknown to the library today, or an
+	// extension method): status is left open, but a mutation must belong to
+	// the level addressed, with the request path unchanged.
+	below := strings.TrimSuffix(p, "/") + "/"
+	for _, c := range o.calls {
+		if !c.Raw.Mutating() || c.Op == "CreateColl" {
+			continue
+		}
+		ok := false
+		switch c.Op {
+		case "PutObj":
+			// object level; or an add-member style method on a collection (RFC 5995)
+			ok = (lvl == 4 && c.Path == p) || (lvl == 3 && strings.HasPrefix(c.Path, below))
+		case "DeleteObj":
+			ok = lvl == 4 && c.Path == p
+		case "DeleteColl":
+			ok = lvl == 3 && c.Path == p
+		}
+		if !ok {
+			out = append(out, anomaly{"unexpected-mutation:" + c.Op, fmt.Sprintf("%s made the backend run %s(%q) for a request to %q at level %d (status %d)", m, c.Op, c.Path, p, r.cs.Level, o.status)})
+		}
+	}
+	return out, true
+}
+
+// tableMethods are the methods appendix C has rows (or explicit don't-cares) for.
+var tableMethods = map[string]bool{"OPTIONS": true, "GET": true, "HEAD": true, "PUT": true, "DELETE": true, "MKCOL": true,
+	"PROPFIND": true, "REPORT": true, "PROPPATCH": true, "COPY": true, "MOVE": true}
+
+// judgeTable applies appendix C to one request. checked=false: don't-care cell.
+func (r *rig) judgeTable(p string, o *observed) (out []anomaly, checked bool) {
 	cs := r.cs
 	stored := r.stored()
 	exact := stored != "" && stored == p
